@@ -51,7 +51,7 @@ def run(chk):
             want = "new:%s orig:%s lfdbt:%s" % (ref_f, ref_f, ref)
             if got != want:
                 chk.failures.append(core.Failure("generated parity row for M=%d N=%d differs from TS004 matrix_line%s" % (M, N, " (no-repeat variant)" if ffr else ""), "lfdbt", variant, c, got, want, key="c10"))
-                if len(chk.failures) > 10: break
+                if chk.too_many(): break
             row = ts004.row_mask(N, M, ffr)
             if row >> M: chk.failures.append(core.Failure("row addresses a fragment >= M", "lfdbt", variant, c, got, key="c10"))
             if M >= 2 and row == 0: chk.failures.append(core.Failure("empty row for M >= 2", "lfdbt", variant, c, got, key="c10"))
